@@ -199,6 +199,7 @@ type worldLine struct {
 	Commands  []string        `json:"commands"`
 	Federated bool            `json:"federated"`
 	Reset     *bool           `json:"reset"`
+	FailTable string          `json:"fail_table"`
 	Which     string          `json:"which"`
 }
 
@@ -305,6 +306,10 @@ func worldOp(out *bufio.Writer, inst **lmd.VerifInstance, op string, raw []byte,
 		if line.CmdReply != nil {
 			b.CmdReply = *line.CmdReply
 		}
+		if line.FailTable != "" {
+			ft, fm := line.FailTable, line.FailMode
+			b.Mutate(func(_ map[string]*backend.Table) { b.FailTable, b.FailTableMode = ft, fm })
+		}
 		if line.Reset != nil {
 			v := *line.Reset
 			b.Mutate(func(_ map[string]*backend.Table) { b.ResetCmd = v })
@@ -340,7 +345,10 @@ func worldOp(out *bufio.Writer, inst **lmd.VerifInstance, op string, raw []byte,
 	}
 	if curWorld != nil && line.Peer != "" {
 		if b := curWorld.backends[line.Peer]; b != nil {
-			b.Mutate(func(_ map[string]*backend.Table) { res["backend_queries"] = b.Queries })
+			b.Mutate(func(_ map[string]*backend.Table) {
+				res["backend_queries"] = b.Queries
+				res["fail_table_hits"] = b.FailTableHits
+			})
 		}
 	}
 	emit(out, res)
